@@ -363,7 +363,7 @@ fn run(a: &vhcore::Args) -> i32 {
             vhcore::machinery_failure(&format!("required tool `{tool}` not found"));
         }
     }
-    let work = vhcore::work_dir("C30");
+    let work = work_dir_keeping_patches("C30");
     let exe = std::env::current_exe().unwrap_or_else(|e| vhcore::machinery_failure(&format!("current_exe: {e}")));
     let sc = make_scenario(&work.join("scenario"));
     let ctx = Ctx { exe, work, sc };
